@@ -581,7 +581,10 @@ def replay_concrete(harness, model):
     def choice(a, size=None, replace=True, p=None):
         vals = list(a) if not isinstance(a, int) else list(range(a))
         if size is None and len(vals) == 2:
-            return vals[S.outcome("choice")]
+            o = S.outcome("choice")
+            if p is not None and not (p[o] > 0):
+                o = 1 - o  # contract of the real call: an outcome of probability 0 is never drawn
+            return vals[o]
         return saved[1](a, size, replace, p)
 
     # the only environment control in a replay: RNG draws return the solver model's outcomes, in order
@@ -753,6 +756,30 @@ def _make_session(harness, seed, solver_timeout_ms):
     if r != z3.sat:
         raise RuntimeError(f"harness {harness.name}: assumptions are {r} (vacuous or undecided)")
     return S, spec
+
+
+def sample_models(S, k=2, seed=0):
+    """k pseudo-random models of the harness assumptions (random values forced on a few declared variables)"""
+    import random
+
+    rng = random.Random(seed + 12345)
+    names = [n for n, (kind, v) in S.vars.items() if kind == "bit"]
+    out = []
+    tries = 0
+    while len(out) < k and tries < 6 * k:
+        tries += 1
+        extra = []
+        for n in rng.sample(names, min(len(names), 6)):
+            v = S.vars[n][1]
+            extra.append(v if rng.random() < 0.5 else z3.Not(v))
+        r = S.solver.check(*extra)
+        if r == z3.sat:
+            m = S.solver.model()
+            mv = S.model_values(m)
+            mv["rng"] = [rng.randint(0, 1) for _ in range(16)]
+            mv["aux"] = [rng.randint(0, 1) for _ in range(64)]
+            out.append(mv)
+    return out
 
 
 def explore_serial(harness, seed=0, solver_timeout_ms=120000, max_paths=None, time_budget=None,
